@@ -2,7 +2,7 @@
 import common as C
 import gen_checker as GC
 
-NAMES = ["f", "g", "p", "__init__", "__new__", "__setattr__", "_priv", "__repr__", "__eq__"]
+NAMES = ["f", "g", "p", "__init__", "__new__", "__setattr__", "_priv", "__repr__", "__eq__", "__getattr__"]
 
 
 # the module the definitions of a history live in (the library leaves only classes of its own module
@@ -141,7 +141,7 @@ class GenElab:
                 if inherited and rng.random() < 0.6:
                     name = rng.choice(inherited)
                 else:
-                    name = rng.choice(["f", "f", "g", "p", "__init__", "__new__", "__setattr__", "_priv", "__repr__"])
+                    name = rng.choice(["f", "f", "g", "p", "__init__", "__new__", "__setattr__", "_priv", "__repr__", "__getattr__"])
                 if name in used:
                     continue
                 used.add(name)
